@@ -153,6 +153,9 @@ func sameValue(a, b Value) bool {
 	case *strIter:
 		y, ok := b.(*strIter)
 		return ok && x == y
+	case ReflType:
+		y, ok := b.(ReflType)
+		return ok && types.Identical(x.T, y.T)
 	}
 	return false
 }
